@@ -491,7 +491,15 @@ fn gen_c16_deep(rng: &mut Rng, tier: Tier) -> Case {
         };
         steps.push(CursorStep { cur: 0, op });
     }
-    Case::Cursor(CursorCase { spec: FileSpec { knobs, entries: Entries::Literal(ents) }, env: crate::env::EnvPlan::whole(), steps, fresh_each: rng.chance(1, 4), v1: false, sparse_hole: None })
+    let fresh_each = rng.chance(1, 4);
+    let mut env = crate::env::EnvPlan::whole();
+    // side stream: one deep-tree history in three meets one transient source fault (a failing
+    // operation, and the operations after it, are bounded like any other)
+    let mut side = rng.clone();
+    if !fresh_each && side.chance(1, 3) {
+        env.faults = vec![crate::env::FaultSpec { k: side.log_uniform(4, 1500), err: side.below(9) as u8, sticky: false, merge_nth: 0, panic: false }];
+    }
+    Case::Cursor(CursorCase { spec: FileSpec { knobs, entries: Entries::Literal(ents) }, env, steps, fresh_each, v1: false, sparse_hole: None })
 }
 
 /// Clones of positioned cursors whose original then leaves the block (or is reset) before the clone
